@@ -544,7 +544,7 @@ where
                 with_iter!(itg, env, item, it => init
                     .foldl_with(it, |acc: Val, x: Val, e| {
                         let s = I::sp(&e.span());
-                        Val::FoldW { lo: s.0, hi: s.1, acc: Box::new(acc), x: Box::new(x) }
+                        Val::FoldW { lo: s.0, lo2: s.0, hi: s.1, acc: Box::new(acc), x: Box::new(x) }
                     })
                     .boxed())
             } else {
@@ -559,7 +559,7 @@ where
                 with_iter!(itg, env, item, it => it
                     .foldr_with(last, |x: Val, acc: Val, e| {
                         let s = I::sp(&e.span());
-                        Val::FoldW { lo: s.0, hi: s.1, acc: Box::new(acc), x: Box::new(x) }
+                        Val::FoldW { lo: s.0, lo2: s.0, hi: s.1, acc: Box::new(acc), x: Box::new(x) }
                     })
                     .boxed())
             } else {
@@ -635,10 +635,26 @@ where
                 r.boxed()
             }
         }
+        ExtWrap => chumsky::extension::v1::Ext(WrapExt(kid!(0))).boxed(),
         Ref => {
             let n = g.p.n;
             env.recs.iter().rev().find(|(m, _)| *m == n).map(|(_, p)| p.clone()).expect("unbound Ref")
         }
+    }
+}
+
+/// Extension parser with a separate check path.
+pub struct WrapExt<P>(pub P);
+
+impl<'s, I: Kind<'s>, ER: ErrK<'s, I>, P: Parser<'s, I, Val, Ex<ER>>> chumsky::extension::v1::ExtParser<'s, I, Val, Ex<ER>> for WrapExt<P>
+where
+    I::Span: Clone + 's,
+{
+    fn parse(&self, inp: &mut chumsky::input::InputRef<'s, '_, I, Ex<ER>>) -> Result<Val, ER> {
+        inp.parse(&self.0)
+    }
+    fn check(&self, inp: &mut chumsky::input::InputRef<'s, '_, I, Ex<ER>>) -> Result<(), ER> {
+        inp.check(&self.0)
     }
 }
 
